@@ -9,31 +9,37 @@
 EXTENDS FTPlan, Json
 CONSTANTS MaxN,        \* DAGs on n <= MaxN fetches
           Stratum,     \* "plain" | "multi" | "paths" | "dedup" | "all" (every stratum in one run)
-          PathsMaxN    \* the paths stratum multiplies by 6^n: its own bound
-VARIABLES n, deps, phase, ds, ent, kind, cls, stratum
-gvars == <<n, deps, phase, ds, ent, kind, cls, stratum>>
+          PathsMaxN,   \* the paths stratum multiplies by 6^n: its own bound
+          DeferMaxN    \* the defer stratum multiplies by 2 * 3^n: its own bound
+VARIABLES n, deps, phase, ds, ent, kind, cls, stratum,
+          did,         \* did[f] = defer group of fetch f (0 = primary response, groups 1 and 2)
+          dpar         \* parent of defer group 2 (0 = top level, 1 = nested in group 1); group 1 is top level
+gvars == <<n, deps, phase, ds, ent, kind, cls, stratum, did, dpar>>
 
-Case == [n |-> n, deps |-> deps, ds |-> ds, ent |-> ent, kind |-> kind, cls |-> cls, s |-> stratum]
+Case == [n |-> n, deps |-> deps, ds |-> ds, ent |-> ent, kind |-> kind, cls |-> cls, s |-> stratum, did |-> did, dpar |-> dpar]
 Ident == [f \in 1..n |-> f]
 
 GenInit ==
   /\ n \in 1..MaxN
   /\ deps = [f \in 1..n |-> {}]
-  /\ phase = "dag" /\ stratum = "none"
+  /\ phase = "dag" /\ stratum = "none" /\ did = [f \in 1..n |-> 0] /\ dpar = 0
   /\ ds = [f \in 1..n |-> 1] /\ ent = [f \in 1..n |-> FALSE] /\ kind = [f \in 1..n |-> 1] /\ cls = [f \in 1..n |-> f]
 
 AddEdge == \E f, d \in 1..n :
   /\ phase = "dag" /\ f # d /\ d \notin deps[f]
   /\ f \notin Closure(n, deps, d) \cup {d}
   /\ deps' = [deps EXCEPT ![f] = @ \cup {d}]
-  /\ UNCHANGED <<n, phase, ds, ent, kind, cls, stratum>>
+  /\ UNCHANGED <<n, phase, ds, ent, kind, cls, stratum, did, dpar>>
 
-Strata == IF Stratum = "all" THEN {"plain", "multi", "paths", "dedup"} ELSE {Stratum}
+Strata == IF Stratum = "all" THEN {"plain", "multi", "paths", "dedup", "defer"} ELSE {Stratum}
 Decorate == \E sx \in Strata :
   /\ phase = "dag" /\ phase' = "out" /\ stratum' = sx
-  /\ (sx = "paths" => n <= PathsMaxN)
+  /\ (sx = "paths" => n <= PathsMaxN) /\ (sx = "defer" => n <= DeferMaxN)
   /\ UNCHANGED <<n, deps>>
+  /\ (sx # "defer" => UNCHANGED <<did, dpar>>)
   /\ CASE sx = "plain" -> UNCHANGED <<ds, ent, kind, cls>>
+       [] sx = "defer" -> /\ did' \in [1..n -> 0..2] /\ dpar' \in 0..1
+                          /\ UNCHANGED <<ds, ent, kind, cls>>
        [] sx = "multi" -> /\ ds' \in [1..n -> 1..2]
                                /\ \E roots \in BOOLEAN : ent' = [f \in 1..n |-> roots \/ deps[f] # {}]
                                /\ UNCHANGED <<kind, cls>>
@@ -48,7 +54,14 @@ GenSpec == GenInit /\ [][GenNext]_gvars
 
 \* decorated states that are not plans are pruned (identical requests must agree; the nested
 \* dependencies implied by the paths must not contradict the declared ones)
+\* @defer placements the planner can emit: a deferred fetch reads only from the primary response, its own group and the
+\* groups its group is nested in; group 1 has a fetch of its own (the planner re-parents defers below an empty one)
+GroupAnc(g) == IF g = 0 THEN {0} ELSE IF g = 1 THEN {0, 1} ELSE {0, 2} \cup (IF dpar = 1 THEN {1} ELSE {})
+DeferOK == /\ \E f \in 1..n : did[f] = 1
+           /\ (dpar = 1 => \E f \in 1..n : did[f] = 2)
+           /\ \A f \in 1..n : \A d \in deps[f] : did[d] \in GroupAnc(did[f])
 Plausible == phase = "out" => /\ ClsOK(Case)
+                              /\ (stratum = "defer" => DeferOK)
                               /\ Acyclic(n, AugDeps(Case))
                               /\ (stratum = "paths" => \E f \in 1..n : Nested(Case, f) # {})
 Emit == IF phase = "out" /\ Plausible THEN PrintT(ToJson(Case)) ELSE TRUE
